@@ -14,7 +14,6 @@ static int linecount(char *s);
 #include EXTRACT_FILE
 #define NO_STUB_MEMCPY
 #define NO_STUB_MEMMOVE
-#define NO_STUB_STRLEN
 #define NO_STUB_STRCHR
 #include "libc.spec.h"
 #include "vix.spec.h"
